@@ -993,8 +993,29 @@ def kern_runs(repo, name, pack_factory=None, json_dir=None):
         with open(os.path.join(json_dir, name + ".json"), "w") as f:
             json.dump(facts, f, indent=1, sort_keys=True)
 
+    # the file's other function (register wipe, core file only): same ABI facts, no memory access
+    free_err = None
+    if "ascon_backend_free" in [it[1] for it in items if it[0] == "label"]:
+        try:
+            mf = AVR(items, "ascon_backend_free", {24: ("ptr", "state", 0)}, {"state": {"size": 40 * maxs, "symbolic": True}})
+            mf.run()
+            af = mf.abi_facts()
+            facts["ascon_backend_free"] = {k_: af[k_] for k_ in ("callee_saved_bad", "r1_zero", "sp_restored", "i_flag_restored", "frame_bytes", "steps", "regions")}
+            pf = (["callee-saved register(s) %s do not hold their entry values" % ", ".join(af["callee_saved_bad"])] if af["callee_saved_bad"] else []) + \
+                 ([] if af["r1_zero"] else ["r1 is not zero"]) + ([] if af["sp_restored"] else ["the stack pointer is not restored"]) + \
+                 ([] if af["i_flag_restored"] else ["the interrupt flag is not restored"]) + \
+                 (["it accesses memory (%s)" % ", ".join(sorted(r for r in af["regions"] if r != "stack" and af["regions"][r]["kinds"]))]
+                  if [r for r in af["regions"] if r != "stack" and af["regions"][r]["kinds"]] else [])
+            if pf:
+                free_err = "; ".join(pf)
+        except Stuck as ex:
+            facts["ascon_backend_free"] = {"error": str(ex)}
+            free_err = str(ex)
+
     def one(k):
         try:
+            if free_err:
+                raise Stuck("ABI: ascon_backend_free in the same file: " + free_err)
             if k >= 12:
                 raise Stuck("outside the documented range: first_round is `between 0 and 11`; the round loop is do-while (the constant is compared with 0x3C only "
                             "after a round), so first_round = 12 executes 256 rounds instead of none")
